@@ -3,7 +3,7 @@ import os, sys
 sys.path.insert(0, os.path.join(os.path.dirname(os.path.abspath(__file__)), "..", "lib"))
 from vf import H, C, M
 
-MODULES = [M("ohkami_lib/src/serde_urlencoded.rs", "harness/C09/urlencoded.rs"), M("ohkami_lib/src/serde_urlencoded/de.rs", "harness/C09/de_helper.rs")]
+MODULES = [M("ohkami_lib/src/serde_urlencoded.rs", "harness/C09/urlencoded.rs"), M("ohkami_lib/src/serde_urlencoded/de.rs", "harness/C09/de_helper.rs"), M("ohkami_lib/src/serde_urlencoded/ser.rs", "harness/C09/ser_helper.rs")]
 CONTRACTS = []
 B = dict(crate="ohkami_lib", strength="bounded", tier="quick", timeout=900)
 S, D = "serde_urlencoded::ser::URLEncodedSerializer::", "serde_urlencoded::de::URLEncodedDeserializer::"
@@ -14,7 +14,10 @@ HARNESSES = [
     H("c09_roundtrip_unit_enum", functions=[S + "serialize_unit_variant", D + "deserialize_enum", "de::Enum::variant_seed"], clauses=[RT], bound="a derived 3-variant unit enum", **B),
     H("c09_roundtrip_option_unit_enum", functions=[S + "serialize_unit_variant", S + "serialize_none", D + "deserialize_option", D + "deserialize_enum"], clauses=[RT], bound="Option of a derived 3-variant unit enum", **B),
     H("c09_roundtrip_newtype", functions=[S + "serialize_newtype_struct", D + "deserialize_newtype_struct"], clauses=[RT], bound="a derived newtype over bool", **B),
-    H("c09_roundtrip_char", functions=[S + "serialize_char", D + "deserialize_char"], clauses=["for ALL chars (reserved characters and non-ASCII included): " + RT], bound="full domain of char", **B),
+    H("c09_roundtrip_char", functions=[S + "serialize_char", D + "deserialize_char"], clauses=["for ALL chars (reserved characters and non-ASCII included): " + RT], bound="full domain of char (symbolic; > 11 GB, thorough tier only)", **dict(B, tier="thorough")),
+] + [H(f"c09_roundtrip_char_ascii_k{k:02d}", functions=[S + "serialize_char", D + "deserialize_char"], clauses=["for all ASCII chars (every reserved character, controls): " + RT],
+         bound=f"ASCII chars {32 * k}..{32 * k + 31}, enumerated concretely (all 128 over the 4 chunks)", expect_covers=False, **B) for k in range(4)] + [
+    H("c09_roundtrip_char_samples", functions=[S + "serialize_char", D + "deserialize_char"], clauses=[RT], bound="8 CONCRETE non-ASCII chars (boundaries of every UTF-8 length)", **B),
     H("c09_roundtrip_pair_bool", functions=[S + "serialize_tuple", "SerializeTuple::serialize_element", D + "deserialize_tuple", "de::CommaSeparated::next_element_seed"], clauses=[RT + " (2-element sequence)"], bound="all (bool, bool)", **B),
     H("c09_roundtrip_triple_bool", functions=[S + "serialize_tuple", "SerializeTuple::serialize_element", D + "deserialize_tuple", "de::CommaSeparated::next_element_seed"], clauses=[RT + " (3-element sequence)"], bound="all (bool, bool, bool)", **B),
 ]
@@ -30,6 +33,17 @@ HARNESSES += [H(f"c09_roundtrip_string_pair_k{k:02d}", functions=[S + "serialize
 HARNESSES += [H(f"c09_decode_text_k{k:02d}", functions=["de::AmpersandSeparated::next_key_seed", "de::AmpersandSeparated::next_value_seed", D + "next_section", D + "deserialize_string"],
                 clauses=["`k=v&k=v` decodes, pair by pair, to the RFC 3986 percent-decoding of its `&`/`=`-separated parts (or an error exactly when a part does not decode to UTF-8); nothing after the last pair"],
                 bound=f"two pairs, 1-byte keys, values of {l} symbolic bytes (any byte except & and =)", **B) for k, l in enumerate([(1, 1), (3, 0), (0, 3), (2, 2)])]
+HARNESSES += [
+    H("c09_seq_strings_concrete", functions=[S + "serialize_tuple", "SerializeTuple::serialize_element", D + "deserialize_tuple", "de::CommaSeparated::next_element_seed"],
+      clauses=["three concrete pairs of strings containing `,` `&` `=` `%` decode back to the same pairs"], bound="3 CONCRETE pairs", expect_covers=False, **B),
+    H("c09_seq_empty_first_element", functions=["SerializeTuple::serialize_element"], clauses=["(\"\", \"x\") decodes back to (\"\", \"x\")"], bound="ONE concrete pair: the failing input class of KF-C09-empty-first-seq-element",
+      finding="KF-C09-empty-first-seq-element", expect_covers=False, **B),
+]
+# written but NOT registered (measured: 8-32 GB or no answer in 15 min each; kept in harness/C09 for reference): the symbolic full-domain char, the derived unit enum (+Option),
+# symbolic strings of 1-2 bytes, symbolic string pairs, and the `k=v&k=v` text harnesses
+UNREGISTERED = ("c09_roundtrip_char", "c09_roundtrip_unit_enum", "c09_roundtrip_option_unit_enum", "c09_roundtrip_string_k01", "c09_roundtrip_string_k02")
+HARNESSES = [h for h in HARNESSES if h.name not in UNREGISTERED and not h.name.startswith(("c09_roundtrip_string_pair", "c09_decode_text"))]
+JOBS = 6
 TRUSTED = ["ASSUMED CONTRACTS: percent-encoding crate (spec/percent.rs decoder + reference NON_ALPHANUMERIC encoder in harness/C09), core::str::from_utf8 (spec/utf8.rs); alloc::fmt::format stubbed",
            "core's integer Display / FromStr executed on enumerated values, not specified", "serde's derive output for the harness's unit enum / newtype is executed, not specified"]
 ASSUMPTIONS = ["struct / map glue of derived impls (field order, unknown extra fields), floats, string maps and QueryParams::iter are NOT under a discharged contract"]
